@@ -132,7 +132,8 @@ class Task(NamedUIDObject):
         # a worker has one busy interval per task: it can be required only once by a task,
         # be it directly, through a selection or as an elementary worker of a cumulative worker
         if isinstance(resource, SelectWorkers):
-            workers_involved = resource.list_of_workers
+            # (the elementary workers, for a cumulative worker of the list)
+            workers_involved = resource._list_of_workers
         else:
             workers_involved = [resource]
         for worker in workers_involved:
@@ -142,8 +143,8 @@ class Task(NamedUIDObject):
                 )
 
         if isinstance(resource, SelectWorkers):
-            # loop over each resource
-            for worker in resource.list_of_workers:
+
+            def add_maybe_busy_worker(worker, selected_variable):
                 resource_maybe_busy_start = z3.Int(
                     f"{worker.name}_maybe_busy_{self.name}_start"
                 )
@@ -155,7 +156,6 @@ class Task(NamedUIDObject):
                     self, (resource_maybe_busy_start, resource_maybe_busy_end)
                 )
                 # add assertions. z3.If worker is selected then sync the resource with the task
-                selected_variable = resource._selection_dict[worker]
                 schedule_as_usual = z3.And(
                     resource_maybe_busy_start == self._start,
                     resource_maybe_busy_end == self._end,
@@ -179,6 +179,28 @@ class Task(NamedUIDObject):
                 self.append_z3_assertion(assertion)
                 # finally, add each worker to the "required" resource list
                 self._required_resources.append(worker)
+
+            # loop over each resource
+            for worker in resource.list_of_workers:
+                selected_variable = resource._selection_dict[worker]
+                if isinstance(worker, CumulativeWorker):
+                    # a cumulative worker of the list is selected if and only if the task
+                    # occupies at least one of its elementary workers, which hold the
+                    # busy intervals (and then the capacity) of the cumulative worker
+                    elementary_selected = []
+                    for elementary_worker in worker._cumulative_workers:
+                        elementary_worker_is_selected = z3.Bool(
+                            f"Selected_{elementary_worker.name}_{resource._uid}"
+                        )
+                        add_maybe_busy_worker(
+                            elementary_worker, elementary_worker_is_selected
+                        )
+                        elementary_selected.append(elementary_worker_is_selected)
+                    self.append_z3_assertion(
+                        selected_variable == z3.Or(elementary_selected)
+                    )
+                else:
+                    add_maybe_busy_worker(worker, selected_variable)
             # also, don't forget to add the AlternativeWorker assertion
             self.append_z3_assertion(resource._selection_assertion)
         elif isinstance(resource, Worker):
